@@ -5,9 +5,10 @@ From JT.Model Require Import Jt1078.
 From JT.Proofs Require Import Jt1078_proofs.
 
 (* one packet followed by anything: fields and payload as laid out by the standard,
-   exactly one packet consumed, the remainder returned unchanged *)
-Theorem C17_one_packet : forall p rest, wf_packet p ->
-  decode fresh_pkt (std_packet p ++ rest) = Ok (p, rest).
+   exactly one packet consumed, the remainder returned unchanged - whatever the receiving Packet
+   decoded before (r is the previous value of the receiver, arbitrary) *)
+Theorem C17_one_packet : forall r p rest, wf_packet p ->
+  decode r (std_packet p ++ rest) = Ok (p, rest).
 Proof. exact one_packet. Qed.
 Print Assumptions C17_one_packet.
 
@@ -17,9 +18,22 @@ Theorem C17_stream : forall ps, Forall wf_packet ps ->
 Proof. exact stream. Qed.
 Print Assumptions C17_stream.
 
+(* the same with ONE Packet reused for every step (p.Decode in a loop), starting from any receiver:
+   no field of an earlier packet survives into a later one (no timestamp for transparent data after
+   a timestamped packet, no frame intervals for audio after video) *)
+Theorem C17_stream_reused_packet : forall r ps, Forall wf_packet ps ->
+  decode_stream_reuse r (flat_map std_packet ps) = Ok ps.
+Proof. exact stream_reuse. Qed.
+Print Assumptions C17_stream_reused_packet.
+
+(* the result of a decode never depends on the receiver's previous content, for ANY byte string *)
+Theorem C17_receiver_irrelevant : forall r d, decode r d = decode fresh_pkt d.
+Proof. exact receiver_irrelevant. Qed.
+Print Assumptions C17_receiver_irrelevant.
+
 (* every proper prefix of a packet is reported as too short (header or body), never as a packet *)
-Theorem C17_short : forall p d s, wf_packet p -> d ++ s = std_packet p -> s <> [] ->
-  decode fresh_pkt d = Err E1078_SHORT_HEAD \/ decode fresh_pkt d = Err E1078_SHORT_BODY.
+Theorem C17_short : forall r p d s, wf_packet p -> d ++ s = std_packet p -> s <> [] ->
+  decode r d = Err E1078_SHORT_HEAD \/ decode r d = Err E1078_SHORT_BODY.
 Proof. exact short. Qed.
 Print Assumptions C17_short.
 
@@ -29,7 +43,10 @@ Theorem C17_unqualified : forall r d, (16 <= length d)%nat -> firstn 4 d <> mark
 Proof. exact unqualified. Qed.
 Print Assumptions C17_unqualified.
 
-(* decoding with a fresh Packet never panics, for any byte string (shared with C03) *)
+(* decoding never panics, for any byte string and any receiver (shared with C03) *)
+Theorem C17_total : forall r d, decode r d <> Panic.
+Proof. exact total. Qed.
+Print Assumptions C17_total.
 Theorem C17_total_fresh : forall d, decode fresh_pkt d <> Panic.
 Proof. exact total_fresh. Qed.
 Print Assumptions C17_total_fresh.
